@@ -61,4 +61,17 @@ theorem C15_enum_split (t : Omen.Tables) (target : Nat) (fuel1 fuel2 : Nat) (s :
 
 theorem C15_option_removed : Generated.Session.removesOmenOption = true := by decide
 
+/-- the point the hypotheses above exclude (`main = .exited`, resp. `omenExit = false`) is reachable, and
+there the statement of the property fails — the recorded known finding, replayed on the real code by the
+harness: `q` arrives while the **last** pre-terminal of the run, a Markov level, is being generated.  The
+level stops after the current guess, the `.omn` file is written, but the main loop then finds the queue
+empty and finishes without saving the session: the output is cut short and the save file does not ask for the
+remainder (`omenOpt = false`), so a resumed session cannot emit it. -/
+theorem C15_last_unit_loss :
+    let us := [Unit'.markov [[1], [2], [3]]]
+    let s := run us (initNew [.line "q" false]) [.main, .main, .kbd, .kbd, .main, .main]
+    s.main = .finished ∧ s.omenExit = true ∧ s.out = [[1], [2]] ∧ s.out ≠ fullStream us ∧
+      s.files.omn = some [[3]] ∧ s.files.omenOpt = false := by
+  decide
+
 end Pcfg.C15
